@@ -10,7 +10,7 @@ PROPERTY_ID = "C07"
 RULE = ("programs: Hypothesis build programs rich in DispersiveMeasure (about half of the items) on <= 5 qubits with tags "
         "from {'', a, b}, interleaved with gates, nesting <= 3 with repetition counts 1..3 at every level (also the top "
         "circuit), each measurement created against the registry of its own circuit or of an ancestor up to the root; "
-        "intermediate circuits with default and non-default repetition strategy. After apply_modifiers(): with M = the "
+        "intermediate circuits with default and non-default repetition strategy. In half of the cases every measurement's indices are also read while the circuit is being built (before every add) and once more before unrolling. After apply_modifiers(): with M = the "
         "measurements in listing order, circuit-level index of M[k] = k, per-qubit index = rank among the same qubit, "
         "get_acquisition_indices(q) = 0..n_q-1, get_acquisition_indices(AcquisitionTag(q, tag)) = exactly the ranks of "
         "the matching measurements (so tags partition), the qubit sequence of M targets in to_stim().flattened() = qubit "
@@ -34,8 +34,9 @@ def cfg(explicit: bool):
 def strat():
     from hypothesis import strategies as st
     return st.one_of(
-        st.fixed_dictionaries({"program": P.program_strategy(cfg(True)), "late": st.booleans()}),
-        st.fixed_dictionaries({"program": P.program_strategy(cfg(False)), "late": st.booleans()}),
+        # early: indices are also read while the circuit is being built (before every add) and before unrolling
+        st.fixed_dictionaries({"program": P.program_strategy(cfg(True)), "late": st.booleans(), "early": st.booleans()}),
+        st.fixed_dictionaries({"program": P.program_strategy(cfg(False)), "late": st.booleans(), "early": st.booleans()}),
     )
 
 
@@ -120,11 +121,23 @@ def body(case, ctx):
     ctx.case(case, nontrivial=nontrivial, classes=[
         f"n_meas>=4={len(meas) >= 4}", f"nested_meas={nested_meas}", f"ancestor_registry={anc_reg}",
         f"reps={st['n_reps_gt1'] > 0}", f"top_reps={program['top'].get('reps', 1) > 1}", f"explicit={explicit}",
-        f"late={case['late']}", f"nesting={st['nesting']}"])
+        f"late={case['late']}", f"early={bool(case.get('early'))}", f"nesting={st['nesting']}"])
     facts = {"explicit": explicit, "ancestor_registry": anc_reg, "top_reps": program["top"].get("reps", 1) > 1}
     b = mod = None
+
+    def read_indices(decl):
+        for o in decl.operations:
+            if isinstance(o, DispersiveMeasure):
+                o.acquisition_index, o.circuit_level_acquisition_index
+                decl.get_acquisition_indices(o.qubit_index)
+
+    def peek(decl, p, it):
+        read_indices(decl)
+
     with ctx.lib("build + apply_modifiers"):
-        b = P.build(program)
+        b = P.build(program, peek=peek if case.get("early") else None)
+        if case.get("early"):
+            read_indices(b.circuit)
         mod = b.circuit.apply_modifiers()
     if mod is None:
         return
@@ -190,6 +203,6 @@ def body_library(case, ctx):
 
 def parts():
     return [
-        Part("programs", body, strategy=strat, quick=450, thorough=2500),
+        Part("programs", body, strategy=strat, quick=1200, thorough=4000),
         Part("library", body_library, items=items_library),
     ]
